@@ -43,7 +43,10 @@ def gen(rng, tier):
         mm = dict(rows=rows)
         dt = G.typed(mm, rng) if style in ("plain", "ties", "flat") else G.pick_dtype(rows, rng)
         rows = mm["rows"]
-        yield dict(n=n, M=[[fs(x) for x in row] for row in rows], const=fs(G.q(rng)), kind=rng.choice(G.KINDS),
+        # the constant is sometimes a large offset (2^20 …): objective values are then huge compared with their spacing, which a
+        # RELATIVE tolerance would blur
+        const_ = G.q(rng) if rng.random() < 0.8 else Fraction(rng.choice([2 ** 20, -2 ** 21, 10 ** 6, 3 * 10 ** 6])) + G.q(rng)
+        yield dict(n=n, M=[[fs(x) for x in row] for row in rows], const=fs(const_), kind=rng.choice(G.KINDS),
                    pattern=rng.choice(PATTERNS), style=style, obj_stats=rng.random() < 0.85, dtype=dt)
 
 
